@@ -147,6 +147,9 @@ def requestedAlign {β} (ps : Nat) (align? : Option Nat) (rs : List (Placed β))
     | [r] => match r.align with | some a => a | none => ps
     | _ => ps
 
+/-- `usize::is_power_of_two` -/
+def isPow2 (n : Nat) : Bool := n != 0 && 2 ^ n.log2 == n
+
 /-- the whole block; returns the alignment of the type -/
 def alignCheck {β} (ps : Nat) (packed : Bool) (align? : Option Nat) (rs : List (Placed β)) (size : Nat) :
     Res Nat :=
@@ -154,6 +157,7 @@ def alignCheck {β} (ps : Nat) (packed : Bool) (align? : Option Nat) (rs : List 
     if align?.isSome then .err "cannot specify both packed and align" else .ok 1
   else
     let alignment := requestedAlign ps align? rs
+    if !isPow2 alignment then .err "alignment is not a power of two" else
     match lcmAll rs with
     | .ok required =>
       if required > alignment then .err "alignment is less than minimum required alignment"
